@@ -44,12 +44,17 @@ ASSUMPTIONS = [
     "default behaviour switches (the property does not quantify over them)",
     "virtual wall clock (1 s per request, no inactivity reset); SecurityAccess seeds from a seeded generator",
     "helpers.parse_pdu is a pure function of (reply, request bytes): verdicts are memoised per worker",
-    "handle_client is driven without an event loop: the StreamReader is fed completely (all lines + EOF) before "
+    "handle_client is driven without an event loop: the callback and the StreamReader limit are those the transport's own "
+    "run() hands to asyncio.start_server / start_unix_server (captured), the StreamReader is fed completely (all lines + EOF) before "
     "the coroutine starts, the writer is a stub whose drain() returns at once - segmentation / back-pressure of a "
     "real socket are out of scope here",
     "state restore by replacing server.state / last_time_active (validated in C13)",
+    "forced draws: random(), randint(a, b) and expovariate() of the per-reply generators are environment answers; "
+    "one draw per reply (the first 24 positions) is forced to either end of its range (expovariate: 0 and 8x its mean), "
+    "the generator still advances so all other draws are those of the natural run",
 ]
 CHUNK = 1
+DRAW_CAP = 24  # draw positions per reply that are forced (later positions are payload bytes / further DTC records)
 
 _LOOP: list[Any] = []
 _MEMO: dict[tuple[bytes, bytes], tuple[tuple[str, str, str], ...]] = {}
@@ -123,7 +128,8 @@ def alphabet(cfg: dict[str, Any], m: ref.Model, pre: tuple[Any, ...]) -> tuple[l
     short = vc.short_alphabet(m, wide)
     seq = short + vc.structured(m) + gen + vc.dynamic(m, pre)
     rest = vc.long_alphabet(m, wide) + vc.boundary_lengths(m)
-    return list(dict.fromkeys(seq + rest)), list(dict.fromkeys(seq + rest[:: 7 if not wide else 3])), notes
+    ladder = vc.length_ladder(m)
+    return list(dict.fromkeys(seq + rest + ladder)), list(dict.fromkeys(seq + rest[:: 7 if not wide else 3] + ladder)), notes
 
 
 def check_one(res: Result, cfg: dict[str, Any], m: ref.Model, hist: list[Any], ecu: vc.Ecu, q: bytes, where: str, sent: bytes | None) -> None:
@@ -174,7 +180,7 @@ def explore_state(res: Result, cfg: dict[str, Any], st: tuple[Any, ...], hist: l
         res.count("transitions")
         res.count("evaluations")
         try:
-            sent = ecu.request(q)
+            sent = ecu.request(q, log=True)
         except Exception as e:  # noqa: BLE001 - I1
             res.violate(
                 f"C14|raises|{type(e).__name__}|in={_innermost(e)}|sid={_cat(m, q[0])}|len={_lencls(q)}",
@@ -183,11 +189,35 @@ def explore_state(res: Result, cfg: dict[str, Any], st: tuple[Any, ...], hist: l
             )
             ecu.restore(snap)
             continue
+        draws = list(vc.DRAWS["log"])
         check_one(res, cfg, m, hist, ecu, q, where, sent)
         post_conc = ecu.concrete()
         if post_conc != pre_conc:
             res.seen("succ", (cfg["name"], post_conc))
             ecu.restore(snap)
+        # one deviation: one draw of the reply generators forced to an end of its range
+        if len(draws) > DRAW_CAP:
+            res.count("draw_positions_beyond_cap", len(draws) - DRAW_CAP)
+        for i, kind in enumerate(draws[:DRAW_CAP]):
+            for end in ("lo", "hi"):
+                res.count("transitions")
+                res.count("forced_draws")
+                res.seen("forced_draw_kinds", (kind, end))
+                w2 = f"{where} draw#{i}({kind})={end}"
+                try:
+                    sent2 = ecu.request(q, force=(i, end))
+                except Exception as e:  # noqa: BLE001
+                    res.violate(
+                        f"C14|raises|{type(e).__name__}|in={_innermost(e)}|sid={_cat(m, q[0])}|len={_lencls(q)}|draw={kind}:{end}",
+                        f"handle_request raised {e!r} :: {w2} request={q[:12].hex()}{'..' if len(q) > 12 else ''}",
+                        {"cfg": cfg, "hist": [list(e) for e in hist], "request": q.hex(), "mode": "state"},
+                    )
+                    ecu.restore(snap)
+                    continue
+                if sent2 != sent:
+                    res.count("forced_draws_changing_reply")
+                    check_one(res, cfg, m, hist, ecu, q, w2, sent2)
+                ecu.restore(snap)
     if only is None:
         long_history(res, cfg, m, hist, seq, where)
 
@@ -219,8 +249,12 @@ def long_history(res: Result, cfg: dict[str, Any], m: ref.Model, hist: list[Any]
     # through the TCP loop
     a = vc.Ecu(cfg)
     a.play(hist)
-    tcp = S.TCPUDSServerTransport(a.srv, vc.G["target"])
-    reader = asyncio.StreamReader(limit=2**16, loop=_LOOP[0])
+    # the server's own run() decides the client callback and the stream limit (TCP and unix flavours alternate)
+    flavour = S.TCPUDSServerTransport if len(hist) % 2 == 0 or not hasattr(S, "UnixUDSServerTransport") else S.UnixUDSServerTransport
+    tcp = flavour(a.srv, vc.G["target"] if flavour is S.TCPUDSServerTransport else vc.G["TargetURI"]("unix-lines:///nonexistent/vf.sock"))
+    cb, limit, which = vc.capture_stream_server(tcp)
+    res.seen("stream_servers", (flavour.__name__, which, limit))
+    reader = asyncio.StreamReader(limit=limit, loop=_LOOP[0])
     reader.feed_data(b"".join(q.hex().encode() + b"\n" for q in seq))
     reader.feed_eof()
     writer = vc.FakeWriter()
@@ -229,7 +263,7 @@ def long_history(res: Result, cfg: dict[str, Any], m: ref.Model, hist: list[Any]
     vc.ENTROPY[0] = vc.G["entropy_real"][0]
     try:
         with contextlib.redirect_stderr(err):
-            vc.drive(tcp.handle_client(reader, writer))
+            vc.drive(cb(reader, writer))
     except Exception as e:  # noqa: BLE001
         res.violate(
             f"C14|handle_client|raises|{type(e).__name__}|in={_innermost(e)}",
